@@ -542,29 +542,32 @@ class Component:
     def __init__(self, name, harness, srcs, pmodel_args, gen, nontrivial, rule, corpus=None,
                  cpu=None, extra=(), ldflags=(), env=None, sanitize=True, opt=None, classify=None,
                  impl_cmd_extra=(), ignore_l2=False, monitor_args=None, fresh_process=False,
-                 bb_ok=False, bb_srcs=(), bb_fresh=False):
+                 bb_ok=False, bb_srcs=(), bb_fresh=False, bb_skip_ops=()):
         self.__dict__.update(locals())
 
 
-def check_component(ctx, comp, budget_mult=1, only_l1_boundary=False, cases=None):
-    """Build harness, run corpus + generated cases through impl and model, compare.
-    Returns list of failures: dict(kind, case, index, detail, crash)."""
+def build_component(ctx, comp):
+    """Build the harness of a component -> (exe, err).  A component that declares `bb_ok` is, when its white-box harness does
+    not compile against this tree (or when VERIF_FORCE_BLACKBOX=1 asks for it: a test switch), built in black-box mode; the
+    choice is remembered on the component (`comp._bb`) for the rest of the run."""
+    def bb_build():
+        return build_harness(ctx, comp.name, comp.harness, list(comp.srcs) + list(getattr(comp, "bb_srcs", ())),
+                             cpu=comp.cpu, extra=list(comp.extra) + ["-DHC_BLACKBOX"], ldflags=comp.ldflags,
+                             sanitize=comp.sanitize, opt=comp.opt)
     if getattr(comp, "_bb", False):      # black-box mode was chosen earlier in this run
-        exe, err = build_harness(ctx, comp.name, comp.harness, list(comp.srcs) + list(getattr(comp, "bb_srcs", ())),
-                                 cpu=comp.cpu, extra=list(comp.extra) + ["-DHC_BLACKBOX"], ldflags=comp.ldflags,
-                                 sanitize=comp.sanitize, opt=comp.opt)
+        return bb_build()
+    forced = getattr(comp, "bb_ok", False) and os.environ.get("VERIF_FORCE_BLACKBOX", "") not in ("", "0")
+    if forced:
+        exe, err = None, "error: VERIF_FORCE_BLACKBOX is set (white-box build not attempted)"
     else:
         exe, err = build_harness(ctx, comp.name, comp.harness, comp.srcs, cpu=comp.cpu, extra=comp.extra,
                                  ldflags=comp.ldflags, sanitize=comp.sanitize, opt=comp.opt)
-    cstat = ctx.cov["components"].setdefault(comp.name, {})
-    if exe is None and getattr(comp, "bb_ok", False) and not getattr(comp, "_bb", False):
+    if exe is None and getattr(comp, "bb_ok", False):
         # The harness reads private names of the library (statics, members of private structs) to print the L2 part and
         # they no longer exist under these names.  Black-box mode: the same harness compiled with -DHC_BLACKBOX uses the
         # public interface only and prints the L1 part only; state that the white-box build reset between cases is reset
         # by giving every case its own process.  The tie is then the observable correspondence alone (with the 10x budget).
-        exe2, err2 = build_harness(ctx, comp.name, comp.harness, list(comp.srcs) + list(getattr(comp, "bb_srcs", ())),
-                                   cpu=comp.cpu, extra=list(comp.extra) + ["-DHC_BLACKBOX"], ldflags=comp.ldflags,
-                                   sanitize=comp.sanitize, opt=comp.opt)
+        exe2, err2 = bb_build()
         if exe2 is not None:
             exe = exe2
             comp._bb = True
@@ -572,12 +575,32 @@ def check_component(ctx, comp, budget_mult=1, only_l1_boundary=False, cases=None
             if getattr(comp, "bb_fresh", False):
                 comp.fresh_process = True
             first = [l for l in err.split("\n") if "error" in l][:2]
-            msg = ("BLACKBOX %s: the white-box harness does not compile against this tree (%s); observable (L1) correspondence only, "
-                   "one process per case" % (comp.name, " / ".join(x.strip()[:160] for x in first)))
+            msg = ("BLACKBOX %s: the white-box harness does not compile against this tree (%s); observable (L1) correspondence only%s"
+                   % (comp.name, " / ".join(x.strip()[:160] for x in first), ", one process per case" if comp.fresh_process else ""))
             if msg not in ctx.soft_msgs:
                 ctx.soft_msgs.append(msg)
         else:
             err = err + "\n-- black-box build also fails --\n" + err2
+    return exe, err
+
+
+def bb_filter(ctx, comp, cases):
+    """Black-box mode only: cases that contain an op the harness can perform only with white-box access (`comp.bb_skip_ops`,
+    matched against the first token of each op line) are not run; their number is kept in the evidence."""
+    skip = set(getattr(comp, "bb_skip_ops", ()) or ())
+    if not getattr(comp, "_bb", False) or not skip:
+        return cases
+    kept = [c for c in cases if not any(op.split(" ", 1)[0] in skip for op in c)]
+    cstat = ctx.cov["components"].setdefault(comp.name, {})
+    cstat["blackbox_cases_not_run"] = cstat.get("blackbox_cases_not_run", 0) + len(cases) - len(kept)
+    return kept
+
+
+def check_component(ctx, comp, budget_mult=1, only_l1_boundary=False, cases=None):
+    """Build harness, run corpus + generated cases through impl and model, compare.
+    Returns list of failures: dict(kind, case, index, detail, crash)."""
+    exe, err = build_component(ctx, comp)
+    cstat = ctx.cov["components"].setdefault(comp.name, {})
     if exe is None:
         # the current tree does not compile with our harness: correspondence is broken
         return [{"kind": "BUILD", "case": [], "index": -1, "detail": {"stderr": err}, "crash": None}]
@@ -588,6 +611,7 @@ def check_component(ctx, comp, budget_mult=1, only_l1_boundary=False, cases=None
         cases = cases + comp.gen(rng, ctx.tier, budget_mult)
     else:
         ncorpus = 0
+    cases = bb_filter(ctx, comp, cases)
     fails = run_cases(ctx, comp, exe, cases)
     cstat["cases"] = cstat.get("cases", 0) + len(cases)
     cstat["corpus_cases"] = ncorpus
@@ -803,7 +827,7 @@ def process_failures(ctx, comp, fails):
         found = None
         if os.path.exists(exe):
             rng = ctx.rng.fork(comp.name + ":search")
-            more = comp.gen(rng, ctx.tier, 10)
+            more = bb_filter(ctx, comp, comp.gen(rng, ctx.tier, 10))
             f2 = [x for x in run_cases(ctx, comp, exe, more) if x["kind"] == "L1"]
             f2 = [x for x in f2 if not match_known(ctx, x)]
             if f2:
